@@ -712,7 +712,7 @@ class KafkaCodec(object):
                     partition,
                     error,
                     highwater_mark_offset,
-                    KafkaCodec._decode_message_set_iter(message_set),
+                    KafkaCodec._decode_message_set_iter(message_set or b""),  # a null record set is empty
                 )
 
     @classmethod
